@@ -699,6 +699,9 @@ pub fn run_drip(
     let feed_style = src.below(4); // 0 tiny, 1 small, 2 mixed, 3 large
     let drain_style = src.below(4);
     let hold_full = src.chance(1, 3); // keep outputs full for stretches
+    // With several outputs, one of them often has a slow reader: it is only
+    // drained when the block is stuck, so the outputs offer unequal room.
+    let starved: Option<usize> = if nout >= 2 && src.coin() { Some(src.below(nout)) } else { None };
     let mut hold_left = 0usize;
     let mut idle_again = 0usize;
     let mut stalled = 0usize;
@@ -787,7 +790,11 @@ pub fn run_drip(
                 continue;
             }
             2 => {
-                let j = *src.pick(&can_drain);
+                let pool: Vec<usize> = match starved {
+                    Some(sj) if stalled < 2 && can_drain.iter().any(|&j| j != sj) => can_drain.iter().copied().filter(|&j| j != sj).collect(),
+                    _ => can_drain.clone(),
+                };
+                let j = *src.pick(&pool);
                 let max = case.outs[j].available();
                 let m = amount(src, drain_style, max);
                 let n = case.outs[j].drain(m);
@@ -923,6 +930,37 @@ pub fn run_drip(
                 if st.activity {
                     stats.wait_after_activity += 1;
                     stalled = 0;
+                    // A wait verdict from a call that moved data still binds the
+                    // threaded runner (it waits for `need`, and takes "writer
+                    // gone and fewer than `need` left" for the end). Which
+                    // stream it names is a hint then, but the amount must not be
+                    // overstated: one sample short, nothing may be delivered.
+                    if let Some(i) = case.ins.iter().position(|p| p.id() == *id) {
+                        let avail = case.ins[i].backlog();
+                        if *need > avail && opts.probe_waits && !case.ins[i].is_nc() && case.ins[i].capacity() >= *need && src.chance(1, 6) {
+                            let lack = *need - avail;
+                            let left = case.ins[i].total() - case.ins[i].fed();
+                            if lack >= 2 && left >= lack && case.ins[i].space() >= lack {
+                                case.ins[i].feed(lack - 1);
+                                ctx.count("wait_probe_in_one_short");
+                                let st1 = step(case, solo, false);
+                                stats.work_calls += 1;
+                                ctx.ev(|| format!("probe (after activity): fed {} (one short of {need}) to in{i} -> {:?} consumed={:?} produced={:?}", lack - 1, st1.verdict, st1.consumed, st1.produced));
+                                if let Verdict::Panic(p) = &st1.verdict {
+                                    find!("C08", &format!("panic:{}", p.site), "work() panicked: {} at {}", p.msg, p.loc);
+                                    return false;
+                                }
+                                let delivered = st1.produced.iter().any(|&x| x > 0) || (nout == 0 && st1.consumed.iter().any(|&x| x > 0));
+                                if delivered {
+                                    find!("C09", "overstated-wait-in", "asked for {need} on input {i} (had {avail}), yet with {} it went ahead: consumed {:?} produced {:?}; a runner would have dropped that tail at the end of the stream", *need - 1, st1.consumed, st1.produced);
+                                }
+                                if matches!(st1.verdict, Verdict::Eof | Verdict::Err(_)) {
+                                    ended = true;
+                                    break;
+                                }
+                            }
+                        }
+                    }
                 } else {
                     stalled += 1;
                     ctx.count("wait_verdict_without_activity");
@@ -934,6 +972,33 @@ pub fn run_drip(
                         } else if opts.probe_waits && case.ins[i].capacity() >= *need && src.chance(1, 4) {
                             let lack = *need - avail;
                             let left = case.ins[i].total() - case.ins[i].fed();
+                            // --- C09 (3b): the amount must not be overstated
+                            // either. A runner takes "fewer than `need` left and
+                            // the writer gone" for the end of the stream, so a
+                            // block that asks for more than it can use loses its
+                            // tail. One sample short of the request, the block
+                            // must not be able to deliver (a sink: to take in).
+                            if lack >= 2 && left >= lack && case.ins[i].space() >= lack && !case.ins[i].is_nc() && src.coin() {
+                                case.ins[i].feed(lack - 1);
+                                ctx.count("wait_probe_in_one_short");
+                                let st1 = step(case, solo, false);
+                                stats.work_calls += 1;
+                                ctx.ev(|| format!("probe: fed {} (one short of {need}) to in{i} -> {:?} consumed={:?} produced={:?}", lack - 1, st1.verdict, st1.consumed, st1.produced));
+                                if let Verdict::Panic(p) = &st1.verdict {
+                                    find!("C08", &format!("panic:{}", p.site), "work() panicked: {} at {}", p.msg, p.loc);
+                                    return false;
+                                }
+                                let delivered = st1.produced.iter().any(|&x| x > 0) || (nout == 0 && st1.consumed.iter().any(|&x| x > 0));
+                                if delivered {
+                                    find!("C09", "overstated-wait-in", "asked for {need} on input {i} (had {avail}), yet with {} it went ahead: consumed {:?} produced {:?}; a runner would have dropped that tail at the end of the stream", *need - 1, st1.consumed, st1.produced);
+                                }
+                                if matches!(st1.verdict, Verdict::Eof | Verdict::Err(_)) {
+                                    ended = true;
+                                    break;
+                                }
+                                stalled = 0;
+                                continue;
+                            }
                             if left >= lack && case.ins[i].space() >= lack {
                                 // Satisfy exactly that, on that stream alone.
                                 case.ins[i].feed(lack);
